@@ -21,7 +21,9 @@ Record TreeInv (m : dmol) : Prop := {
   t_par : forall i1 i2 x, child m i1 x -> child m i2 x -> i1 = i2;
   t_rooted : forall j, (j < natoms m)%nat -> In j (roots m) \/ exists i, child m i j;
   t_rootfree : forall j i, In j (roots m) -> ~ child m i j;
-  t_nodup : NoDup (roots m)
+  t_nodup : NoDup (roots m);
+  t_noself : forall i e, In e (row m i) -> b_dst e <> i;
+  t_src : forall i e, In e (row m i) -> b_src e = i
 }.
 
 Lemma tree_empty : TreeInv empty_mol.
@@ -31,6 +33,8 @@ Proof.
   - intros j H. cbn in H. lia.
   - intros j i [].
   - constructor.
+  - intros [|i] e H; destruct H.
+  - intros [|i] e H; destruct H.
 Qed.
 
 Section Prims.
@@ -54,7 +58,7 @@ Proof. unfold child. now rewrite row_add_atom. Qed.
 
 Lemma tree_root m a cap at_ : WF m -> TreeInv m -> TreeInv (fst (add_atom m a cap at_ true)).
 Proof.
-  intros Hm [Tp Tr Tf Tn]. set (m' := fst (add_atom m a cap at_ true)).
+  intros Hm [Tp Tr Tf Tn Ts Tc]. set (m' := fst (add_atom m a cap at_ true)).
   assert (Hn : natoms m' = S (natoms m)) by (unfold natoms, m'; cbn; rewrite app_length; cbn; lia).
   assert (Hro : roots m' = roots m ++ [natoms m]) by reflexivity.
   constructor.
@@ -65,13 +69,15 @@ Proof.
   - intros j i Hj Hc. apply (child_add_atom m a cap at_ true) in Hc. rewrite Hro in Hj. apply in_app_iff in Hj as [Hj|[<-|[]]]; [exact (Tf j i Hj Hc)|].
     destruct (child_lt m i _ Hm Hc). lia.
   - rewrite Hro. apply nodup_snoc; [exact Tn|]. intro H. apply (wf_roots _ _ _ Hm) in H. lia.
+  - intros i e He. unfold m' in He. rewrite (row_add_atom m a cap at_ true i) in He. exact (Ts i e He).
+  - intros i e He. unfold m' in He. rewrite (row_add_atom m a cap at_ true i) in He. exact (Tc i e He).
 Qed.
 
 (* an atom added together with the bond from its parent *)
 Lemma tree_step m a cap at_ p mu st at2 m3 : WF m -> TreeInv m -> (p < natoms m)%nat -> 1 <= mu <= 3 ->
   add_bond (fst (add_atom m a cap at_ false)) p (natoms m) mu st at2 = Ok m3 -> TreeInv m3.
 Proof.
-  intros Hm [Tp Tr Tf Tn] Hp Hmu E. set (m2 := fst (add_atom m a cap at_ false)) in *.
+  intros Hm [Tp Tr Tf Tn Ts Tc] Hp Hmu E. set (m2 := fst (add_atom m a cap at_ false)) in *.
   assert (Hn2 : natoms m2 = S (natoms m)) by (unfold natoms, m2; cbn; rewrite app_length; cbn; lia).
   pose proof (wf_adj _ _ _ Hm) as Ha. pose proof (wf_cnt _ _ _ Hm) as Hc.
   unfold add_bond in E. destruct (negb (p <? natoms m)%nat) eqn:E1; [discriminate|].
@@ -103,6 +109,10 @@ Proof.
   - intros j i Hj Hcj. rewrite Hro in Hj. apply Hch in Hcj as [Hcj|[_ ->]]; [exact (Tf j i Hj Hcj)|].
     apply (wf_roots _ _ _ Hm) in Hj. lia.
   - now rewrite Hro.
+  - intros i e He. rewrite Hrow in He. destruct (Nat.eqb_spec i p) as [->|]; [|exact (Ts i e He)].
+    apply in_app_iff in He as [He|[<-|[]]]; [exact (Ts p e He)|cbn; lia].
+  - intros i e He. rewrite Hrow in He. destruct (Nat.eqb_spec i p) as [->|]; [|exact (Tc i e He)].
+    apply in_app_iff in He as [He|[<-|[]]]; [exact (Tc p e He)|reflexivity].
 Qed.
 
 (* raising the order of a bond changes no target and no ring flag *)
@@ -126,22 +136,31 @@ Proof.
   destruct (new =? b_order e); [injection E as <-; exact T|].
   assert (Hch : forall adj', (forall j, (exists e0, In e0 (nth j adj' []) /\ b_ring e0 = false /\ b_dst e0 = j) <-> True) -> True) by auto. clear Hch.
   assert (G : forall m'', atoms m'' = atoms m -> roots m'' = roots m ->
-            (forall i x, child m'' i x <-> child m i x) -> TreeInv m'').
-  { intros m'' Eat Ero Hc. destruct T as [Tp Tr Tf Tn]. constructor.
+            (forall i x, child m'' i x <-> child m i x) ->
+            (forall i e0, In e0 (row m'' i) -> exists e1, In e1 (row m i) /\ b_dst e1 = b_dst e0 /\ b_src e1 = b_src e0) -> TreeInv m'').
+  { intros m'' Eat Ero Hc Hd. destruct T as [Tp Tr Tf Tn Ts Tc]. constructor.
     - intros i1 i2 x H1 H2. apply Hc in H1, H2. eauto.
     - intros j Hj. unfold natoms in Hj. rewrite Eat in Hj. rewrite Ero. destruct (Tr j Hj) as [H|[i H]]; [now left|right; exists i; now apply Hc].
     - intros j i Hj H. rewrite Ero in Hj. apply Hc in H. exact (Tf j i Hj H).
-    - now rewrite Ero. }
+    - now rewrite Ero.
+    - intros i e0 He0. destruct (Hd i e0 He0) as (e1 & He1 & <- & _). exact (Ts i e1 He1).
+    - intros i e0 He0. destruct (Hd i e0 He0) as (e1 & He1 & _ & <-). exact (Tc i e1 He1). }
   assert (Hone : forall (ad : list (list dbond)) k d i x,
             (exists e0, In e0 (nth i (upd ad k (fun l0 => set_order l0 d new)) []) /\ b_ring e0 = false /\ b_dst e0 = x) <->
             (exists e0, In e0 (nth i ad []) /\ b_ring e0 = false /\ b_dst e0 = x)).
   { intros ad k d i x. rewrite nth_upd. destruct (Nat.eqb k i && (i <? length ad)%nat); [apply child_set_order|reflexivity]. }
+  assert (Hdst : forall (ad : list (list dbond)) k d i e0, In e0 (nth i (upd ad k (fun l0 => set_order l0 d new)) []) ->
+            exists e1, In e1 (nth i ad []) /\ b_dst e1 = b_dst e0 /\ b_src e1 = b_src e0).
+  { intros ad k d i e0. rewrite nth_upd. destruct (Nat.eqb k i && (i <? length ad)%nat); [|eauto].
+    intro H. apply In_set_order in H as (e1 & H1 & H2 & _ & H3 & _). eauto. }
   destruct (b_ring e).
   - destruct (find_bond m (Nat.max l rr) (Nat.min l rr)); [|discriminate]. cbn [bind] in E. injection E as E'.
     apply G; try (rewrite <- E'; reflexivity).
-    intros i x. unfold child, row. rewrite <- E'. cbn [adj]. rewrite Hone. apply Hone.
+    + intros i x. unfold child, row. rewrite <- E'. cbn [adj]. rewrite Hone. apply Hone.
+    + intros i e0. unfold row. rewrite <- E'. cbn [adj]. intro H. apply Hdst in H as (e1 & H1 & <- & <-). apply Hdst in H1 as (e2 & H2 & <- & <-). eauto.
   - cbn [bind] in E. injection E as E'. apply G; try (rewrite <- E'; reflexivity).
-    intros i x. unfold child, row. rewrite <- E'. cbn [adj]. apply Hone.
+    + intros i x. unfold child, row. rewrite <- E'. cbn [adj]. apply Hone.
+    + intros i e0. unfold row. rewrite <- E'. cbn [adj]. apply Hdst.
 Qed.
 
 Lemma add_at_loc_in l pos b l' : add_at_loc l pos b = Ok l' -> forall y, In y l' <-> y = b \/ In y l.
@@ -154,7 +173,7 @@ Qed.
 Lemma tree_ring m l rr order sa sb pl pr m' : WF m -> TreeInv m -> (l < rr)%nat -> (rr < natoms m)%nat -> 1 <= order <= 3 ->
   has_bond m l rr = false -> add_ring_bond m l rr order sa sb pl pr = Ok m' -> TreeInv m'.
 Proof.
-  intros Hm [Tp Tr Tf Tn] Hlt Hrn Ho Hnb E. pose proof (wf_adj _ _ _ Hm) as Ha.
+  intros Hm [Tp Tr Tf Tn Ts Tc] Hlt Hrn Ho Hnb E. pose proof (wf_adj _ _ _ Hm) as Ha.
   unfold add_ring_bond in E.
   set (ba := {| b_src := l; b_dst := rr; b_order := order; b_stereo := sa; b_ring := true; b_attr := None |}) in *.
   set (bb := {| b_src := rr; b_dst := l; b_order := order; b_stereo := sb; b_ring := true; b_attr := None |}) in *.
@@ -192,5 +211,11 @@ Proof.
   - intros j Hj. unfold natoms in Hj. rewrite Eat in Hj. rewrite Ero. destruct (Tr j Hj) as [H|[i H]]; [now left|right; exists i; now apply Hc].
   - intros j i Hj H. rewrite Ero in Hj. apply Hc in H. exact (Tf j i Hj H).
   - now rewrite Ero.
+  - intros i e He. rewrite Hrow in He. destruct (Nat.eqb_spec i l) as [->|N1]; [|destruct (Nat.eqb_spec i rr) as [->|N2]; [|exact (Ts i e He)]].
+    + apply Ia in He as [->|He]; [cbn; lia|exact (Ts l e He)].
+    + apply Ib in He as [->|He]; [cbn; lia|exact (Ts rr e He)].
+  - intros i e He. rewrite Hrow in He. destruct (Nat.eqb_spec i l) as [->|N1]; [|destruct (Nat.eqb_spec i rr) as [->|N2]; [|exact (Tc i e He)]].
+    + apply Ia in He as [->|He]; [reflexivity|exact (Tc l e He)].
+    + apply Ib in He as [->|He]; [reflexivity|exact (Tc rr e He)].
 Qed.
 End Prims.
